@@ -52,7 +52,7 @@ theorem weightedRR_returns_available_with_positive_weight (ws : List Nat) (pool 
 /-- FULL STATEMENT (fails for round robin at the uint32 wrap-around, see
     `roundRobin_some_if_any_available_full_fails`; hash policies need a non-zero hash):
     `anyAvail pool → (select w p pool ds).res ≠ .none`.
-    Proved for first, round_robin (counter not wrapping during the call), least_conn, random,
+    Proved for first, weighted_round_robin (an available upstream has a positive weight of its own), round_robin (counter not wrapping during the call), least_conn, random,
     random_choose, ip_hash / client_ip_hash / uri_hash / header / query (some available upstream
     hashes to a non-zero value — the code uses hash 0 as "none found") and cookie, through any
     chain of fallbacks. `liveOK` spells the exclusions out. -/
@@ -77,7 +77,35 @@ theorem select_some_if_any_available_partial : ∀ (p : Policy) (w : Bool) (pool
       rw [ht3] at this
       rw [availB_true.2 hja] at this
       cases this
-  | .wrr ws c, w, pool, ds, hl, _ => by simp [liveOK] at hl
+  | .wrr ws c, w, pool, ds, hl, ha => by
+    simp only [select]
+    obtain ⟨v, hv, _⟩ := anyAvail_iff.1 ha
+    have hlen : pool.length ≠ 0 := fun h0 => by rw [List.length_eq_zero_iff.1 h0] at hv; cases hv
+    simp only [liveOK, Bool.or_eq_true, decide_eq_true_eq, List.any_eq_true] at hl
+    unfold selWRR
+    rw [if_neg hlen]
+    rcases hl with h2 | ⟨i, _, hi⟩
+    · rw [if_pos h2]
+      simp only [selFirst]
+      rcases firstGo_spec pool [] with ⟨_, h2⟩ | ⟨j, h1, _⟩
+      · obtain ⟨v, hv, hav⟩ := anyAvail_iff.1 ha
+        rw [h2 v hv] at hav; cases hav
+      · simp at h1; rw [h1]; simp
+    · by_cases h2 : ws.length < 2
+      · rw [if_pos h2]
+        simp only [selFirst]
+        rcases firstGo_spec pool [] with ⟨_, h2⟩ | ⟨j, h1, _⟩
+        · obtain ⟨v, hv, hav⟩ := anyAvail_iff.1 ha
+          rw [h2 v hv] at hav; cases hav
+        · simp at h1; rw [h1]; simp
+      · rw [if_neg h2]
+        obtain ⟨_, x, _, hx, _, hpos⟩ := wrrUsable_iff.1 hi
+        have := get_le_sum hx
+        rw [if_neg (by omega)]
+        obtain ⟨j, hj⟩ := wrrScan_live (wrrEff ws pool) pool
+          (wrrIndexGo (wrrEff ws pool) 0 0 (inc32 c % (wrrEff ws pool).sum)) i hi
+        simp only [hj]
+        simp
   | .leastConn, w, pool, ds, _, ha => by
     simp only [select]
     intro hnone
@@ -122,84 +150,71 @@ theorem select_some_if_any_available_partial : ∀ (p : Policy) (w : Bool) (pool
     · intro hnone
       exact select_some_if_any_available_partial fb w pool ds (by simpa [liveOK] using hl) ha (cookieRes_none hnone)
 
-/-- weighted round robin returns an upstream whenever an available upstream with a positive
-    weight exists (with fewer than two weights: whenever an upstream is available) — provided it
-    does not panic, see `select_never_panics_partial` -/
-theorem weightedRR_some_if_any_available_partial (ws : List Nat) (pool : Pool) (c : Nat)
-    (hok : wrrOK pool ws = true)
+/-- weighted round robin returns an upstream whenever an available upstream has a positive
+    weight of its own (with fewer than two weights: whenever an upstream is available) -/
+theorem weightedRR_some_if_any_available (ws : List Nat) (pool : Pool) (c : Nat)
     (h : (ws.length < 2 ∧ anyAvail pool = true) ∨
          (2 ≤ ws.length ∧ ∃ (i : Nat) (u : Up) (w : Nat), pool[i]? = some u ∧ u.avail = true ∧ ws[i]? = some w ∧ 0 < w)) :
     ∃ i, (selWRR ws pool c).1 = .sel i := by
-  rcases h with ⟨h2, ha⟩ | ⟨h2, i, u, w, hu, hav, hw, hpos⟩
-  · have hne := select_some_if_any_available_partial .first true pool [] rfl ha
-    have hp := selFirst_noPanic pool
-    simp only [select] at hne
-    obtain ⟨v, hv, _⟩ := anyAvail_iff.1 ha
-    have hlen : pool.length ≠ 0 := fun h0 => by rw [List.length_eq_zero_iff.1 h0] at hv; cases hv
-    unfold selWRR
-    rw [if_neg hlen, if_pos h2]
-    simp only
-    rcases firstGo_spec pool [] with ⟨h1, _⟩ | ⟨j, h1, _⟩
-    · exact absurd (by simpa [selFirst] using h1) hne
-    · exact ⟨j, by simpa [selFirst] using h1⟩
-  · have hlen : pool.length ≠ 0 := fun h0 => by rw [List.length_eq_zero_iff.1 h0] at hu; simp at hu
-    simp [wrrOK, show ¬ws.length < 2 by omega] at hok
-    unfold selWRR
-    rw [if_neg hlen, if_neg (by omega), if_neg (by omega)]
-    cases hcol : wrrCollect ws (posWeights ws).length pool 0 [] with
-    | none => exact absurd hcol (wrrCollect_some ws _ pool [] [] (by simpa using hok.2))
-    | some ups =>
-      simp only
-      have hne := wrrCollect_nonempty ws _ pool [] [] ups hcol
-        (Or.inr ⟨i, u, w, hu, hav, by simpa using hw, hpos⟩)
-      exact wrrPick_live hne
+  have hlive : liveOK pool (.wrr ws c) = true ∧ anyAvail pool = true := by
+    rcases h with ⟨h2, ha⟩ | ⟨h2, i, u, w, hu, hav, hw, hpos⟩
+    · exact ⟨by simp [liveOK, h2], ha⟩
+    · have hi : i < pool.length := (List.getElem?_eq_some_iff.1 hu).1
+      have hiw : i < ws.length := (List.getElem?_eq_some_iff.1 hw).1
+      refine ⟨?_, anyAvail_iff.2 ⟨u, List.mem_of_getElem? hu, hav⟩⟩
+      simp only [liveOK, Bool.or_eq_true, decide_eq_true_eq, List.any_eq_true]
+      refine Or.inr ⟨i, by simp [wrrEff]; omega, ?_⟩
+      rw [wrrUsable_eff]
+      exact wrrUsable_iff.2 ⟨u, w, hu, hw, hav, hpos⟩
+  have hne := select_some_if_any_available_partial (.wrr ws c) true pool [] hlive.1 hlive.2
+  simp only [select] at hne
+  rcases selWRR_none_or_sel ws pool c with h0 | h1
+  · exact absurd h0 hne
+  · exact h1
 
-/-! ## No policy panics — except where the tree does -/
+/-! ## No policy panics -/
 
-/-- FULL STATEMENT (fails, see `select_never_panics_full_fails_index` / `…_divide` in
-    Witness.lean): `(select w p pool ds).res.isPanic = false`.
-    Proved when (a) weighted round robin has fewer than two weights, or a positive total weight
-    and at least as many weights as upstreams, and (b) `Select` was given a ResponseWriter or the
-    request reaches no cookie policy (`nilSafe`; see `select_never_panics_with_writer_partial`
-    for the proxy handler's case, where (b) is always true). -/
-theorem select_never_panics_partial : ∀ (p : Policy) (w : Bool) (pool : Pool) (ds : List Nat),
-    panicOK pool p = true → nilSafe w p = true → (select w p pool ds).res.isPanic = false
-  | .first, w, pool, ds, _, _ => by simp only [select]; exact selFirst_noPanic pool
-  | .rr c, w, pool, ds, _, _ => by simp only [select]; exact selRR_noPanic pool c
-  | .wrr ws c, w, pool, ds, h, _ => by simp only [select]; exact selWRR_noPanic c (by simpa [panicOK] using h)
-  | .leastConn, w, pool, ds, _, _ => by simp only [select]; exact (selLeastConn_post pool ds).2.2
-  | .random, w, pool, ds, _, _ => by simp only [select, selRandom]; exact rndGo_noPanic pool 0 .none 0 ds rfl
-  | .randomChoose k, w, pool, ds, _, _ => by simp only [select]; exact selRandomChoose_noPanic k pool ds
-  | .hash, w, pool, ds, _, _ => by simp only [select]; exact selHash_noPanic pool
-  | .keyed true fb, w, pool, ds, _, _ => by simp only [select]; exact selHash_noPanic pool
-  | .keyed false fb, w, pool, ds, h1, h2 => by
+/-- no `Select` panics when it is given a ResponseWriter, or when the request reaches no cookie
+    policy (`nilSafe`: a cookie policy writes its cookie to the ResponseWriter) -/
+theorem select_never_panics_of_nilSafe : ∀ (p : Policy) (w : Bool) (pool : Pool) (ds : List Nat),
+    nilSafe w p = true → (select w p pool ds).res.isPanic = false
+  | .first, w, pool, ds, _ => by simp only [select]; exact selFirst_noPanic pool
+  | .rr c, w, pool, ds, _ => by simp only [select]; exact selRR_noPanic pool c
+  | .wrr ws c, w, pool, ds, _ => by simp only [select]; exact selWRR_noPanic ws pool c
+  | .leastConn, w, pool, ds, _ => by simp only [select]; exact (selLeastConn_post pool ds).2.2
+  | .random, w, pool, ds, _ => by simp only [select, selRandom]; exact rndGo_noPanic pool 0 .none 0 ds rfl
+  | .randomChoose k, w, pool, ds, _ => by simp only [select]; exact selRandomChoose_noPanic k pool ds
+  | .hash, w, pool, ds, _ => by simp only [select]; exact selHash_noPanic pool
+  | .keyed true fb, w, pool, ds, _ => by simp only [select]; exact selHash_noPanic pool
+  | .keyed false fb, w, pool, ds, h2 => by
     simp only [select]
-    exact select_never_panics_partial fb w pool ds (by simpa [panicOK] using h1) (by simpa [nilSafe] using h2)
-  | .cookie none fb, w, pool, ds, h1, h2 => by
+    exact select_never_panics_of_nilSafe fb w pool ds (by simpa [nilSafe] using h2)
+  | .cookie none fb, w, pool, ds, h2 => by
     simp only [select]
     simp [nilSafe] at h2
     obtain ⟨hw, h2⟩ := h2
     subst hw
-    have := select_never_panics_partial fb true pool ds (by simpa [panicOK] using h1) h2
+    have := select_never_panics_of_nilSafe fb true pool ds h2
     revert this
     cases (select true fb pool ds).res <;> simp [cookieRes, Res.isPanic]
-  | .cookie (some c) fb, w, pool, ds, h1, h2 => by
+  | .cookie (some c) fb, w, pool, ds, h2 => by
     simp only [select]
     split
     · rfl
     · simp [nilSafe] at h2
       obtain ⟨hw, h2⟩ := h2
       subst hw
-      have := select_never_panics_partial fb true pool ds (by simpa [panicOK] using h1) h2
+      have := select_never_panics_of_nilSafe fb true pool ds h2
       revert this
       cases (select true fb pool ds).res <;> simp [cookieRes, Res.isPanic]
 
-/-- the proxy handler's case: `Select` is called with a ResponseWriter, through any chain of
-    header / query / cookie fallbacks (header and query pass their writer on) — only the
-    weighted-round-robin exclusion remains -/
-theorem select_never_panics_with_writer_partial (p : Policy) (pool : Pool) (ds : List Nat)
-    (h : panicOK pool p = true) : (select true p pool ds).res.isPanic = false :=
-  select_never_panics_partial p true pool ds h (nilSafe_true p)
+/-- **no selection panics**: the proxy handler's case — `Select` is called with a ResponseWriter —
+    for every policy, through any chain of header / query / cookie fallbacks, every pool, every
+    weight list (old code: `weightedRR_never_panics_old_code_fails_index` / `…_divide` in
+    Witness.lean) -/
+theorem select_never_panics (p : Policy) (pool : Pool) (ds : List Nat) :
+    (select true p pool ds).res.isPanic = false :=
+  select_never_panics_of_nilSafe p true pool ds (nilSafe_true p)
 
 /-! ## first: the earliest available upstream -/
 
@@ -285,34 +300,63 @@ theorem randomChoose_minimal (k : Nat) (pool : Pool) (ds : List Nat) (i : Nat)
       ∃ l, (i, l) ∈ cands ∧ ∀ c ∈ cands, l ≤ c.2 :=
   selRandomChoose_spec h
 
-/-! ## weighted round robin honours the weights -/
+/-! ## weighted round robin honours the weights
 
-/-- FULL STATEMENT (fails as soon as an upstream is unavailable or pool and weight list differ
-    in length, see `weightedRR_honours_weights_full_fails`): over a cycle every available upstream
-    is chosen in proportion to its weight.
-    Proved when every upstream is available and there is one weight per upstream (at least two,
-    not all zero) and the counter does not wrap: the selection made at counter value `c+1` is the
-    upstream `i` whose interval `[w₀+…+w_{i-1}, w₀+…+w_i)` contains `(c+1) mod W`, `W` the total
-    weight. The intervals partition `[0, W)` and have length `wᵢ`, so over any `W` consecutive
-    selections upstream `i` is chosen exactly `wᵢ` times. -/
-theorem weightedRR_honours_weights_partial (ws : List Nat) (pool : Pool) (c : Nat)
-    (hall : ∀ v ∈ pool, v.avail = true) (hlen : ws.length = pool.length) (h2 : 2 ≤ ws.length)
-    (hs : 0 < ws.sum) (hc : c + 1 < u32) :
-    ∃ i w, selWRR ws pool c = (.sel i, c + 1) ∧ ws[i]? = some w ∧
-      wOffset ws i ≤ (c + 1) % ws.sum ∧ (c + 1) % ws.sum < wOffset ws i + w := by
-  obtain ⟨i, hown, hsel⟩ := selWRR_owner ws pool c hall hlen h2 hs hc
-  obtain ⟨k, w, hk, hw, hlo, hhi⟩ := ownerGo_spec ws 0 0 _ i (Nat.zero_le _) hown
-  have hki : k = i := by omega
-  subst hki
-  exact ⟨k, w, hsel, hw, by simpa [wOffset] using hlo, by simpa [wOffset] using hhi⟩
+The weights that take part are those of the upstreams in the pool (`wrrEff ws pool`), their
+sum `W` is the length of the cycle; a position is *usable* if its upstream is available and its
+weight positive. All statements: two or more weights configured, `W > 0`, the uint32 counter does
+not wrap inside the window. Old code: `weightedRR_honours_weights_old_code_fails…` in Witness.lean. -/
 
-/-- **… so over `W` consecutive selections upstream `i` is chosen exactly `wᵢ` times** (same
-    hypotheses, counter not wrapping during the cycle; from any counter value) -/
-theorem weightedRR_counts_partial (ws : List Nat) (pool : Pool) (c : Nat) (ds : List Nat)
-    (hall : ∀ v ∈ pool, v.avail = true) (hlen : ws.length = pool.length) (h2 : 2 ≤ ws.length)
-    (hs : 0 < ws.sum) (hc : c + ws.sum < u32) (i w : Nat) (hw : ws[i]? = some w) :
-    ((run ws.sum (.wrr ws c) pool ds).1.map (·.1)).count (.sel i) = w :=
-  wrr_counts ws pool c ds hall hlen h2 hs hc i w hw
+/-- One selection: the turn belongs to the upstream `o` whose interval
+    `[w₀+…+w_{o-1}, w₀+…+w_o)` contains `(c+1) mod W` (its weight is positive); returned is the first
+    usable position among `o, o+1, …` (cyclically) — `o` itself if it is usable; the turn of an
+    upstream that cannot be used goes to the next one, as in round robin. -/
+theorem weightedRR_honours_weights (ws : List Nat) (pool : Pool) (c : Nat) (hp : pool.length ≠ 0)
+    (h2 : 2 ≤ ws.length) (hs : 0 < (wrrEff ws pool).sum) (hc : c + 1 < u32) :
+    ∃ o w, (wrrEff ws pool)[o]? = some w ∧ 0 < w ∧
+      wOffset (wrrEff ws pool) o ≤ (c + 1) % (wrrEff ws pool).sum ∧
+      (c + 1) % (wrrEff ws pool).sum < wOffset (wrrEff ws pool) o + w ∧
+      (selWRR ws pool c).2 = c + 1 ∧
+      ((∃ k, k < (wrrEff ws pool).length ∧ (selWRR ws pool c).1 = .sel ((o + k) % (wrrEff ws pool).length) ∧
+          wrrUsable ws pool ((o + k) % (wrrEff ws pool).length) = true ∧
+          ∀ j, j < k → wrrUsable ws pool ((o + j) % (wrrEff ws pool).length) = false) ∨
+       ((selWRR ws pool c).1 = .none ∧ ∀ j, wrrUsable ws pool j = false)) ∧
+      (wrrUsable ws pool o = true → (selWRR ws pool c).1 = .sel o) := by
+  obtain ⟨o, w, hown, hw, hpos, hlo, hhi, hres⟩ := wrrRes_char ws pool (c + 1) hs
+  rw [selWRR_eq ws pool c hp h2 hs hc]
+  refine ⟨o, w, hw, hpos, hlo, hhi, rfl, ?_, fun hu => wrrRes_owner_usable ws pool (c + 1) o hown hu⟩
+  simp only [hres]
+  rcases wrrScan_char (wrrEff ws pool) pool o (wrrEff ws pool).length 0 with ⟨k, _, hk, h3, h4, h5⟩ | ⟨h1, h2'⟩
+  · refine Or.inl ⟨k, by omega, h3, by rw [← wrrUsable_eff]; exact h4, ?_⟩
+    intro j hj
+    rw [← wrrUsable_eff]
+    exact h5 j (Nat.zero_le _) hj
+  · refine Or.inr ⟨h1, ?_⟩
+    intro j
+    cases hj : wrrUsable ws pool j with
+    | false => rfl
+    | true =>
+      obtain ⟨x, hx⟩ := wrrScan_live (wrrEff ws pool) pool o j (by rw [wrrUsable_eff]; exact hj)
+      rw [h1] at hx; cases hx
+
+/-- Over a cycle (`W` consecutive selections, from any counter value) a usable upstream is chosen
+    at least as often as its weight says — whatever the state of the other upstreams. -/
+theorem weightedRR_counts_at_least_weight (ws : List Nat) (pool : Pool) (c : Nat) (ds : List Nat)
+    (hp : pool.length ≠ 0) (h2 : 2 ≤ ws.length) (hs : 0 < (wrrEff ws pool).sum)
+    (hc : c + (wrrEff ws pool).sum < u32) (i w : Nat) (hw : (wrrEff ws pool)[i]? = some w)
+    (hu : wrrUsable ws pool i = true) :
+    w ≤ ((run (wrrEff ws pool).sum (.wrr ws c) pool ds).1.map (·.1)).count (.sel i) :=
+  wrr_counts_ge ws pool c ds hp h2 hs hc i w hw hu
+
+/-- … and exactly `wᵢ` times when every upstream with a positive weight is available (upstreams
+    with weight 0, or beyond the weight list, may be in any state and are never chosen). -/
+theorem weightedRR_counts_exact (ws : List Nat) (pool : Pool) (c : Nat) (ds : List Nat)
+    (hp : pool.length ≠ 0) (h2 : 2 ≤ ws.length) (hs : 0 < (wrrEff ws pool).sum)
+    (hc : c + (wrrEff ws pool).sum < u32)
+    (hall : ∀ j v, (wrrEff ws pool)[j]? = some v → 0 < v → wrrUsable ws pool j = true)
+    (i w : Nat) (hw : (wrrEff ws pool)[i]? = some w) :
+    ((run (wrrEff ws pool).sum (.wrr ws c) pool ds).1.map (·.1)).count (.sel i) = w :=
+  wrr_counts ws pool c ds hp h2 hs hc hall i w hw
 
 /-! ## hash policies -/
 
@@ -564,20 +608,22 @@ example : (exUp 2 3 7).avail = true ∧ (exFull 1).avail = false ∧ (exFailed 3
 -- select_returns_available: cookie → header(absent) → random_choose 2 returns upstream 4 of 0..4
 example : (select true (.cookie none (.randomChoose 2)) exPool [5, 3]).res = .sel 4 := by decide
 -- weightedRR_returns_available_with_positive_weight
-example : (selWRR [2, 1, 1, 0, 3] exPool 1).1 = .sel 4 := by decide
+example : (selWRR [2, 1, 1, 0, 3] exPool 3).1 = .sel 4 := by decide
 
 -- select_some_if_any_available_partial: hypotheses hold on a four-level chain ending in round robin
 example : liveOK exPool (.cookie (some 77) (.keyed false (.keyed false (.rr 4294967000)))) = true ∧
     anyAvail exPool = true := by decide
 example : liveOK exPool (.keyed true .first) = true ∧ liveOK exPool (.randomChoose 2) = true := by decide
 
--- weightedRR_some_if_any_available_partial: both alternatives
-example : wrrOK exPool [0, 0, 1, 2, 0] = true ∧ (exPool[3]? = some (exUp 4 1 9) ∧ (exUp 4 1 9).avail = true ∧ [0, 0, 1, 2, 0][3]? = some 2) := by decide
-example : wrrOK exPool [5] = true ∧ anyAvail exPool = true := by decide
+-- weightedRR_some_if_any_available: both alternatives
+example : exPool[3]? = some (exUp 4 1 9) ∧ (exUp 4 1 9).avail = true ∧ [0, 0, 1, 2, 0][3]? = some 2 ∧
+    (selWRR [0, 0, 1, 2, 0] exPool 0).1 = .sel 3 := by decide
+example : anyAvail exPool = true ∧ (selWRR [5] exPool 0).1 = .sel 1 := by decide
 
--- select_never_panics_partial
-example : panicOK exPool (.keyed false (.wrr [1, 1, 1, 1, 1] 3)) = true ∧
-    nilSafe true (.cookie none (.keyed false (.wrr [1, 1, 1, 1, 1] 3))) = true ∧
+-- select_never_panics: the inputs on which the old weighted round robin panicked
+example : (select true (.wrr [1, 1] 0) [exFull 1, exUp 2 0 0, exUp 3 0 0] []).res = .sel 1 ∧
+    (select true (.wrr [0, 0] 0) [exUp 1 0 0] []).res = .none := by decide
+example : nilSafe true (.cookie none (.keyed false (.wrr [1, 1, 1, 1, 1] 3))) = true ∧
     nilSafe false (.keyed false (.cookie none .first)) = false := by decide
 -- the `nilSafe` hypothesis is needed only for a caller that hands `Select` a nil ResponseWriter: the cookie
 -- policy then dereferences it (old behaviour of header/query fallbacks before 4a929dc, kept as a regression case)
@@ -604,13 +650,18 @@ example : (selLeastConn exPool [0]).1 = .sel 4 ∧ (selLeastConn exPool [1]).1 =
 example : (selRandomChoose 2 exPool [0, 4294967296]).1 = .sel 3 := by decide
 example : (selRandomChoose 2 exPool [8589934592]).1 = .sel 3 := by decide
 
--- weightedRR_honours_weights_partial: all available, weights 2,0,3; counter 0..4 → 0,2,2,2,0
+-- weightedRR_honours_weights / counts_exact: all available, weights 2,0,3; counters 1..5 → 0,2,2,2,0
 def exAll : Pool := [exUp 1 0 0, exUp 2 0 0, exUp 3 0 0]
-example : (∀ v ∈ exAll, v.avail = true) ∧ [2, 0, 3].length = exAll.length ∧ 0 < [2, 0, 3].sum := by decide
 example : (run 5 (.wrr [2, 0, 3] 0) exAll []).1.map (·.1) = [.sel 0, .sel 2, .sel 2, .sel 2, .sel 0] := by decide
-
--- weightedRR_counts_partial: over W = 5 selections from counter 7: upstream 0 twice, 1 never, 2 three times
-example : 7 + [2, 0, 3].sum < u32 ∧ (run 5 (.wrr [2, 0, 3] 7) exAll []).1.map (·.1) = [.sel 2, .sel 2, .sel 0, .sel 0, .sel 2] := by decide
+example : 7 + (wrrEff [2, 0, 3] exAll).sum < u32 ∧
+    (run 5 (.wrr [2, 0, 3] 7) exAll []).1.map (·.1) = [.sel 2, .sel 2, .sel 0, .sel 0, .sel 2] := by decide
+-- counts_at_least_weight: weights 2,5,1 with the middle upstream at its limit: its five turns go to the next one;
+-- upstream 0 keeps its 2, upstream 2 gets 1 + 5
+example : (wrrEff [2, 5, 1] [exUp 1 0 0, exFull 2, exUp 3 0 0]).sum = 8 ∧
+    (run 8 (.wrr [2, 5, 1] 0) [exUp 1 0 0, exFull 2, exUp 3 0 0] []).1.map (·.1)
+      = [.sel 0, .sel 2, .sel 2, .sel 2, .sel 2, .sel 2, .sel 2, .sel 0] := by decide
+-- more weights than upstreams: the third weight takes no part (cycle 3)
+example : (wrrEff [1, 2, 3] [exUp 1 0 0, exUp 2 0 0]).sum = 3 := by decide
 
 -- hash: upstream 3 (hash 9) wins; it survives removal / failure of the others; a new upstream with hash 8 changes nothing
 example : selHash exPool = .sel 3 ∧ hashPick exPool = some (exUp 4 1 9) := by decide
